@@ -328,9 +328,18 @@ def b_int(it, x=0, base=None, **kw):
         return zint(x)
     if is_str(x):
         b = 10 if base is None else base
+        segs = segs_of(x)
+        if (isinstance(b, int) and b not in (10, 16)) or any(isinstance(g, Opq) for g in segs):
+            # opaque text or an unusual base: int() is a function of (text, base) that raises ValueError for invalid literals
+            if not isinstance(b, int):
+                raise Unsupported("int() with symbolic base")
+            ctx.assumed_models.add("int(text, base) on opaque text: function of (text, base); ValueError iff not a valid literal")
+            t = str_term(x)
+            if not ctx.decide(ufun('int_literal_valid', PyStr, z3.IntSort(), z3.BoolSort())(t, I(b))):
+                raise_py(ValueError, "invalid literal for int() with base %d" % b)
+            return ufun('int_of_str', PyStr, z3.IntSort(), z3.IntSort())(t, I(b))
         if b not in (10, 16):
             raise Unsupported("int() with base %r" % (b,))
-        segs = segs_of(x)
         if len(segs) == 1 and isinstance(segs[0], Fmt) and ((segs[0].conv == 'd' and b == 10) or
                                                              (segs[0].conv in 'xX' and b == 16)):
             return segs[0].val
